@@ -263,6 +263,8 @@ func runC02(c *eng.Ctx) {
 	c.Rule("PROV", "kv/version.version.levels{every version owns its level objects}", func() { versionOwnsLevels(c) })
 	// ---- 15. a new table number is claimed (pending output) before its file exists, so the cleanup never sees an unclaimed file
 	c.Rule("ORDER", famT+".newTableBuilder", func() { newTableBuilderClaimsFirst(c) })
+	// ---- 16. one family object per family (F36): pending outputs are kept per family OBJECT -------------------------------------------
+	c.Rule("ATOMIC", "kv.store.CreateFamily{look-up, create and register in one write hold}", func() { createFamilyOnce(c) })
 
 	c.Observe("snapshot.Load obtains readers through cache.GetReader without recording them for release — a reference leak (readers stay open), not a safety violation")
 }
@@ -559,4 +561,39 @@ func versionOwnsLevels(c *eng.Ctx) {
 		}
 	}
 	c.Check(muts >= 3, "mutators-found", nil, nil, "AddFile, AddFiles and DeleteFile edit a level", fmt.Sprintf("found %d", muts))
+}
+
+// createFamilyOnce (F36): the claim a family holds on the table it is writing (pendingOutputs), its compacting / rolluping flags and
+// the WaitGroup close() waits on live in the *family object. If two callers can both miss in store.families and both build an
+// object, the cleanup run through one object deletes the table the other is writing. So the look-up whose miss leads to
+// newFamilyFunc and the registration s.families[name] = family lie in ONE write hold of the store's mutex.
+func createFamilyOnce(c *eng.Ctx) {
+	p := c.P
+	const mu = "kv.store.rwMutex"
+	f := c.Fn("kv.store.CreateFamily")
+	ls := p.Locks(f, nil)
+	mk := c.One(f, eng.AnyCallTo("var:kv.newFamilyFunc", "kv.newFamily"), "newFamilyFunc(store, option)")
+	reg := c.Some(f, eng.MapUpdateOf("kv.store.families"), "s.families[name] = family")
+	var lookups []eng.Site
+	for _, b := range f.Blocks {
+		for _, in := range b.Instrs {
+			if l, ok := in.(*ssa.Lookup); ok && eng.DependsOnField(l.X, "kv.store.families") {
+				lookups = append(lookups, eng.Site{Fn: f, Instr: in})
+			}
+		}
+	}
+	c.Check(len(lookups) >= 1, "look-up-found", nil, f, "CreateFamily looks the family up before creating it", "")
+	for i, r := range reg {
+		ok, why := ls.SameHold(mk.Instr, r.Instr, mu, true)
+		c.Check(ok, fmt.Sprintf("create-and-register-in-one-hold[%d]", i), r.Instr, f, "the family object is built and registered in one write hold", why)
+		found := false
+		detail := "no look-up of s.families lies in the write hold of the registration: between the (read-locked) look-up and the write lock another caller can create the same family"
+		for _, l := range lookups {
+			if good, _ := ls.SameHold(l.Instr, r.Instr, mu, true); good && eng.DominatedBy(f, mk.Instr, []eng.Site{l}, nil) {
+				found = true
+			}
+		}
+		c.Check(found, fmt.Sprintf("look-up-in-the-registering-hold[%d]", i), r.Instr, f,
+			"the look-up that decides to create is repeated inside the write hold that registers the new family object", detail)
+	}
 }
